@@ -120,14 +120,15 @@ def to_node(v):
 
 
 def tree_arg(v, tight):
-    """tight: False / True = the block comes from the reference conventions; "L" = from LayoutWriter"""
+    """tight: False / True = the block comes from the reference conventions; "L" = from LayoutWriter;
+    "B" = some String stores its value length in bytes (gen_bytecounted): not claimed to be a documented layout"""
     bl = []
     for kind, items in v["blocks"]:
         if kind == "S":
             bl.append("S" + ";".join("%s:%s" % (hexw(l), ",".join("%s=%s" % (hexw(k), hexw(s)) for k, s in strs)) for l, strs in items))
         else:
             bl.append("R" + ";".join("%s=%s" % (hexw(k), hexw(val)) for k, val in items))
-    mode = "L" if tight == "L" else "1" if tight else "0"
+    mode = tight if tight in ("L", "B") else "1" if tight else "0"
     return "tree=%s/%s/%s/%s" % (mode, hexw(v["key"]), hexw(v["value"]), "|".join(bl))
 
 
@@ -213,7 +214,7 @@ def query_ops(rng, v, hx, tree, every=True):
     """the op lines for one block"""
     t = (" " + tree) if tree else ""
     ops = ["ver %s events%s" % (hx, t), "ver %s fixed%s" % (hx, t), "ver %s translation%s" % (hx, t),
-           "ver %s file_info%s" % (hx, t), "ver %s source" % hx]
+           "ver %s file_info%s" % (hx, t), "ver %s source%s" % (hx, t)]
     langs, pairs = [], []
     if v:
         for kind, items in v["blocks"]:
@@ -268,7 +269,7 @@ def gen_wellformed(rng, tier):
     for v in small:
         for tight in (False, True):
             ws, _ = encode(v, tight)
-            cases.append(query_ops(rng, v, hexb(ws), tree_arg(v, tight)))
+            cases.append(query_ops(rng, v, hexb(ws), tree_arg(v, tight)) + (skip2_ops(rng, hexb(ws), len(SKIP2)) if v["blocks"] else []))
             # the same documents at every placement modulo 16: the fixed info is handed out as a
             # `&VS_FIXEDFILEINFO` (alignment 4), so only 4-aligned blocks may be accepted
             if v["value"]:
@@ -281,15 +282,24 @@ def gen_wellformed(rng, tier):
         ws, _ = encode(v, tight)
         if 2 * len(ws) >= 65536:
             continue
-        cases.append(query_ops(rng, v, hexb(ws), tree_arg(v, tight), every=(i % 4 == 0)))
+        cases.append(query_ops(rng, v, hexb(ws), tree_arg(v, tight), every=(i % 4 == 0)) + (skip2_ops(rng, hexb(ws)) if i % 3 == 0 else []))
     # one document close to the 64 KiB limit of wLength
     big = {"key": K_ROOT, "value": FIXED, "blocks": [("S", [(W("040904b0"), [(W("Key%d" % i), W("v" * (i % 37)) + [0]) for i in range(1100)])])]}
     ws, _ = encode(big, False)
     if 2 * len(ws) < 65536:
         hx = hexb(ws)
         t = tree_arg(big, False)
-        cases.append(["ver %s events %s" % (hx, t), "ver %s file_info %s" % (hx, t), "ver %s value 040904b0 %s %s" % (hx, hexw(W("Key1099")), t), "ver %s source" % hx])
+        cases.append(["ver %s events %s" % (hx, t), "ver %s file_info %s" % (hx, t), "ver %s value 040904b0 %s %s" % (hx, hexw(W("Key1099")), t), "ver %s source %s" % (hx, t)])
     return cases
+
+
+# events_skip2 <fmask> <tmask>: decline the i-th file_info iff bit i of fmask, the j-th string_table iff bit j of tmask
+SKIP2 = [(0, 0), (1, 0), (2, 0), (3, 0), (0, 1), (0, 2), (0, 5), (2, 1), (1, 3), (0, 0xFFFFFFFFFFFFFFFF), (0xFFFFFFFFFFFFFFFF, 0), (4, 6)]
+
+
+def skip2_ops(rng, hx, k=3):
+    """recording visitors that decline file_info / string_table callbacks (compared with the model)"""
+    return ["ver %s events_skip2 %d %d" % ((hx,) + m) for m in rng.sample(SKIP2, k)]
 
 
 def gen_layouts(rng, tier):
@@ -348,7 +358,55 @@ def gen_variants(rng, tier):
                 w3.node(Node(W("Third"), [], False, [Node(K_VFI, [], True, [Node(K_TR, [1, 2], False)])]))
                 extra += ([0] if len(extra) % 2 else []) + w3.out
         hx = hexb(w.out + extra)
-        cases.append(query_ops(rng, None, hx, None, every=False) + ["ver %s events_skip %d" % (hx, k) for k in (1, 2, 3)])
+        cases.append(query_ops(rng, None, hx, None, every=False) + ["ver %s events_skip %d" % (hx, k) for k in (1, 2, 3)]
+                     + skip2_ops(rng, hx, 4))
+    return cases
+
+
+def gen_bytecounted(rng, tier):
+    """`String` structures whose wValueLength counts BYTES (a convention of some resource writers;
+    Microsoft documents words).  `visit` reads strings with `Parser::new_words`, so such a string with a
+    non-empty value is `Err(Invalid)` and ends the enumeration of its table (Thm/C13Source.lean:
+    C13_byte_counted_string_partial / _ends_table).  The blocks carry `tree=B/…`: the oracle makes no
+    claim unless the model's layout test accepts the block (only strings WITHOUT a value were marked:
+    the same structure under both conventions), so these cases are correspondence-only otherwise."""
+    cases = []
+    # the witness of C13_byte_counted_string_ends_table
+    v = {"key": W("V"), "value": [], "blocks": [("S", [(W("040904b0"), [(W("A"), W("1\0")), (W("B"), W("2\0")), (W("C"), W("3\0"))]),
+                                                       (W("000004b0"), [(W("D"), W("4\0"))])])]}
+    for which in ((0, 1), (0, 0), (0, 2), (1, 0)):
+        n = to_node(v)
+        n.children[0].children[which[0]].children[which[1]].text = False
+        w = Writer(False)
+        w.node(n)
+        hx = hexb(w.out)
+        cases.append(query_ops(rng, v, hx, tree_arg(v, "B")) + skip2_ops(rng, hx, 2))
+    n_cases = 200 if tier == "quick" else 4000
+    for i in range(n_cases):
+        v = rand_info(rng, rng.random() < 0.7)
+        n = to_node(v)
+        strs = [s for b in n.children if b.key == K_SFI for t in b.children for s in t.children]
+        if not strs:
+            continue
+        r = rng.random()
+        if r < 0.15:
+            pick = [s for s in strs if not s.value]                    # only strings without a value: still documented
+        elif r < 0.6:
+            pick = [rng.choice(strs)]                                  # one string
+        elif r < 0.8:
+            pick = strs                                                # a writer that counts bytes throughout
+        else:
+            pick = [s for s in strs if rng.random() < 0.4]
+        if not pick:
+            continue
+        for s_ in pick:
+            s_.text = False
+        w = Writer(rng.random() < 0.5, "doc", rng.random() < 0.3)
+        w.node(n)
+        if 2 * len(w.out) >= 65536:
+            continue
+        hx = hexb(w.out)
+        cases.append(query_ops(rng, v, hx, tree_arg(v, "B"), every=(i % 4 == 0)))
     return cases
 
 
